@@ -69,6 +69,8 @@ class Src:
                 out.append(probe_src(s[1] + "." + s[2]))
             elif k == "s":
                 out.append("{%% set %s = %s %%}" % (s[1], repr(s[2][1]) if s[2][0] == "c" else s[2][1]))
+            elif k == "T":
+                out.append("{%% set %s = %s %%}" % (", ".join(n for n, _ in s[1]), ", ".join(repr(v) for _, v in s[1])))
             elif k == "m":
                 out.append("{%% macro %s() %%}%s{%% endmacro %%}" % (s[1], s[2]))
             elif k == "i":
@@ -137,7 +139,19 @@ def enc_target(t, out):
     out += ["o" if t[0] == "o" else "n", str(TNAMES[t[1]])]
 
 
+def expand_tuple_sets(ss):
+    """a multi-target assignment of constants is, for the model, the assignments one after the other"""
+    res = []
+    for s in ss:
+        if s[0] == "T":
+            res += [("s", n, ("c", v)) for n, v in s[1]]
+        else:
+            res.append(s)
+    return res
+
+
 def enc_stmts(ss, out):
+    ss = expand_tuple_sets(ss)
     out.append(str(len(ss)))
     for s in ss:
         k = s[0]
@@ -194,12 +208,18 @@ def model_line(ts, mode="r", fuel=400, main=None):
 
 
 # ---------------------------------------------------------------- the real engine
-ENV_KINDS = ["plain", "async", "autoescape", "sandbox", "async+autoescape"]
+ENV_KINDS = ["plain", "async", "autoescape", "sandbox", "async+autoescape", "custom"]
 
 
 def make_env(jinja2, ts, srcs=None, loader=None, kind="plain"):
     loader = loader or jinja2.DictLoader(srcs if srcs is not None else sources(ts))
-    if kind == "sandbox":
+    if kind == "custom":
+        # every documented extension point overridden (context_class, template_class, code_generator_class, concat,
+        # undefined, finalize) in a behaviour-preserving way
+        from .inh_gen import custom_environment_class
+        cls, undef = custom_environment_class(jinja2)
+        env = cls(loader=loader, undefined=undef, finalize=lambda v: v)
+    elif kind == "sandbox":
         from jinja2.sandbox import SandboxedEnvironment
         env = SandboxedEnvironment(loader=loader)
     else:
@@ -237,9 +257,30 @@ def real_render(jinja2, ts, env=None, history=False):
             data["tobj_" + n] = env.get_template(n)
         for n, kind in ts.get("names", []):
             data["tnm_%s_%s" % (n, kind)] = STR_KINDS[kind](n)
-        for var, targets in ts.get("lists", {}).items():
-            data[var] = [env.get_template(t[1]) if t[0] == "o" else
-                         (Markup(t[1]) if i % 2 else StrSub(t[1]) if i % 3 == 0 else t[1]) for i, t in enumerate(targets)]
+        def fresh_lists():
+            res = {}
+            try:
+                main_src = env.loader.get_source(env, ts["main"])[0]
+            except Exception:  # noqa: a loader without sources (ModuleLoader): one-shot iterables are not used
+                main_src = None
+            for vi, (var, targets) in enumerate(sorted(ts.get("lists", {}).items())):
+                vals = [env.get_template(t[1]) if t[0] == "o" else
+                        (Markup(t[1]) if i % 2 else StrSub(t[1]) if i % 3 == 0 else t[1]) for i, t in enumerate(targets)]
+                # every kind of iterable of names: list, tuple, generator, iterator, and a set when its iteration order
+                # cannot matter (at most one candidate exists)
+                kind = ts.get("list_kinds", {}).get(var, (len(var) + vi + len(targets)) % 5)
+                existing = {t[1] for t in targets if t[0] == "o" or t[1] in ts["templates"]}
+                if kind == 1:
+                    vals = tuple(vals)
+                elif kind == 2 and main_src is not None and main_src.count(var) == 1:
+                    vals = (v for v in list(vals))
+                elif kind == 3 and main_src is not None and main_src.count(var) == 1:
+                    vals = iter(list(vals))
+                elif kind == 4 and len(existing) <= 1 and all(t[0] != "o" for t in targets):
+                    vals = set(vals)
+                res[var] = vals
+            return res
+        data.update(fresh_lists())
         if history:
             # an earlier render of the same environment (cached templates, cached default modules) with other data
             # and with OTHER VALUES of the same template-level globals: the named templates re-fetched with new globals
@@ -256,15 +297,17 @@ def real_render(jinja2, ts, env=None, history=False):
                     src0 = env.loader.get_source(env, ts["main"])[0]
                     env.from_string(src0, globals={k: "OLD" + str(v) for k, v in
                                                    ts["templates"][ts["main"]]["globals"].items()}).render(
-                        {k: v for k, v in data.items() if k.startswith(("tobj_", "lst_", "tnm_"))})
+                        dict({k: v for k, v in data.items() if k.startswith(("tobj_", "tnm_"))}, **fresh_lists()))
                 except Exception:  # noqa
                     pass
                 d0 = {k: (v if k.startswith(("tobj_", "lst_", "tnm_")) else "OLD" + str(k)) for k, v in data.items()}
                 d0.update({k: "OLD" + k for k in ("a", "b", "c", "d", "x", "y", "i", "mg")})
+                d0.update(fresh_lists())
                 env.get_template(ts["main"]).render(d0)
             except Exception:  # noqa
                 pass
             preload(env, ts)
+            data.update(fresh_lists())
         return "O " + enc_str(env.get_template(ts["main"]).render(data))
     except BaseException as e:  # noqa
         if isinstance(e, (KeyboardInterrupt, SystemExit)):
@@ -351,6 +394,16 @@ class IGen:
         for k in plan:
             if leaf and 0.24 <= k < 0.72 and r.random() > 0.015:
                 k = 0.9 if r.random() < 0.6 else 0.1
+            if k < 0.045:
+                # one assignment statement with several targets: every mix of private and public names (one, two or no
+                # public name; names of one and of several characters)
+                pool_t = ["a", "b", "q1", "q2", "m1", "_p", "_q", "_p", "_q"] if top else ["a", "b", "q1", "k"]
+                names_t = r.sample(pool_t, r.randint(2, 3))
+                names_t = list(dict.fromkeys(names_t))
+                if len(names_t) >= 2:
+                    stmts.append(["T", [(n_, self.word()) for n_ in names_t]])
+                    will.update(names_t)
+                    continue
             if k < 0.16:
                 x = r.choice(PUBLIC_VARS + ["m1", "q1"] + (["_p"] if top else []))
                 e = ("c", self.word()) if r.random() < 0.8 else ("v", r.choice(["x", "y", "g", "nosuch"] if False else ["x", "y", "g"]))
@@ -407,6 +460,8 @@ class IGen:
             for s2 in stmts[i:]:
                 if s2[0] in ("s", "m"):
                     pending.add(s2[1])
+                elif s2[0] == "T":
+                    pending.update(n_ for n_, _ in s2[1])
                 elif s2[0] == "I":
                     pending.add(s2[2])
                 elif s2[0] == "F":
@@ -426,6 +481,10 @@ class IGen:
                 out.append(("s", s[1], e))
                 assigned.add(s[1])
                 frame_assigned.add(s[1])
+            elif s[0] == "T":
+                out.append(("T", s[1]))
+                assigned.update(n_ for n_, _ in s[1])
+                frame_assigned.update(n_ for n_, _ in s[1])
             elif s[0] == "m":
                 out.append(("m", s[1], s[2]))
                 assigned.add(s[1])
@@ -472,7 +531,7 @@ class IGen:
             if later and r.random() < 0.2:
                 # a template that extends: its own top level only assigns, defines macros and imports; the parent's
                 # root then runs with the same context (modelled as the last statement)
-                body = [s for s in self.body(n, pool, True, 0, set(), set()) if s[0] in ("s", "m", "I", "F")]
+                body = [s for s in self.body(n, pool, True, 0, set(), set()) if s[0] in ("s", "m", "I", "F", "T")]
                 templates[n] = {"globals": g, "body": body + [("X", ("n", r.choice(later)))]}
             else:
                 templates[n] = {"globals": g, "body": self.body(n, pool, True, 0, set(), set())}
@@ -584,6 +643,27 @@ def directed_sets():
                                       "t1": {"globals": {"tg": "TG1"}, "body": how},
                                       "t2": {"globals": {"tg": "TG2"}, "body": how}, "t3": helper},
                         "main": "main", "data": {}, "env_globals": {"g": "G"}, "objects": []})
+    # one assignment statement with several targets, every mix of private / public names, in a template that is then
+    # imported, from-imported, included without context and read as Template.module
+    for names_t in (["_p", "q1"], ["q1", "_p"], ["_p", "_q", "q1"], ["_p", "a"], ["a", "q1"], ["_p", "_q"], ["a", "b", "q1"],
+                    ["_p", "a", "q1"], ["q1", "q2"]):
+        lib_t = {"globals": {}, "body": [("T", [(n, "v" + n.strip("_")) for n in names_t]), ("p", names_t[-1])]}
+        use = [("I", ("n", "t1"), "m1", None)] + [("a", "m1", n) for n in names_t] + \
+              [("F", ("n", "t1"), [(n, n) for n in names_t if not n.startswith("_")][:1] or [("a", "a")], None),
+               ("i", [("n", "t1")], False, False, False), ("i", [("n", "t1")], False, None, False)]
+        out.append({"templates": {"main": {"globals": {}, "body": use}, "t1": lib_t},
+                    "main": "main", "data": {}, "env_globals": {"g": "G"}, "objects": []})
+    # a name list in a render variable, as every kind of iterable (list, tuple, generator, iterator, set), with nothing /
+    # one thing / the last thing existing, with and without ignore missing
+    for kind in range(5):
+        for lst in ([("n", "nope")], [("n", "nope"), ("n", "nope2")], [], [("n", "nope"), ("n", "t1")], [("n", "t1")]):
+            for ign in (True, False):
+                var = "lst_" + "_".join(t[0] + t[1] for t in lst) if lst else "lst_empty"
+                body = [("o", "a"), ("i", lst, "var", None, ign), ("o", "b")]
+                out.append({"templates": {"main": {"globals": {}, "body": body},
+                                          "t1": {"globals": {}, "body": [("o", "one")]}},
+                            "main": "main", "data": {}, "env_globals": {"g": "G"}, "objects": [],
+                            "lists": {var: lst}, "list_kinds": {var: kind}})
     # include lists / partially cached candidates: t2 is loaded first (by an include or an import), then a
     # list [t1, t2] / [nope, t1, t2] must still select t1
     for first in ([("i", [("n", "t2")], False, None, False)], [("I", ("n", "t2"), "m2", None)],
